@@ -15,10 +15,19 @@ Import ListNotations.
 Open Scope string_scope.
 Open Scope list_scope.
 
-Definition o_leaf (e : ev) : list string :=
+(* strict decoding (decode_errors=None) *)
+Definition o_strict (e : ev) : list string :=
   match e with
   | Rd c => if String.eqb c "strptime" then ["ValueError"] else []
   | Call f => if String.eqb f "decode_line" then ["UnicodeDecodeError"] else []
+  | _ => []
+  end.
+
+(* a lenient policy ('ignore', 'replace', 'backslashreplace'): decoding a
+   line never raises *)
+Definition o_lenient (e : ev) : list string :=
+  match e with
+  | Rd c => if String.eqb c "strptime" then ["ValueError"] else []
   | _ => []
   end.
 
@@ -50,6 +59,7 @@ Record bodies := {
 }.
 
 Section Graph.
+  Variable o_leaf : ev -> list string.
   Variable B : bodies.
   Definition E (o : ev -> list string) (b : list stm) := esc_list o [] b.
 
